@@ -10,6 +10,11 @@ import NeoFS.Driver.Dump
 import NeoFS.Driver.WC
 import NeoFS.Driver.EList
 import NeoFS.Driver.GC
+import NeoFS.Driver.Wire
+import NeoFS.Driver.SigChain
+import NeoFS.Driver.Policer
+import NeoFS.Driver.ACL
+import NeoFS.Driver.Token
 open NeoFS NeoFS.Driver
 
 /-- State of all stateful models; pure models need none. -/
@@ -19,6 +24,8 @@ structure DState where
   wc : NeoFS.WC.St := { maxSize := 6000 }
   elist : NeoFS.Driver.EListState := {}
   gc : NeoFS.Driver.GCState := {}
+  pol : NeoFS.Policer.Cluster := {}
+  acl : NeoFS.Driver.ACLSt := {}
 
 def stepLine (s : DState) (line : String) : DState × String :=
   let o := parseOp line
@@ -32,6 +39,12 @@ def stepLine (s : DState) (line : String) : DState × String :=
   | "gov" => (s, govStep o)
   | "dump" => (s, dumpStep o)
   | "wc" => let (w, out) := wcStep s.wc o; ({ s with wc := w }, out)
+  | "wire" => (s, wireStep o)
+  | "sigchain" => (s, sigchainStep o)
+  | "policer" => let (p, out) := policerStep s.pol o; ({ s with pol := p }, out)
+  | "acl" => match tokStep s.acl o with
+    | some (a, out) => ({ s with acl := a }, out)
+    | none => (s, aclStep o)
   | "gc" => let (g, out) := gcStep s.gc o; ({ s with gc := g }, out)
   | "elist" => let (e, out) := elistStep s.elist o; ({ s with elist := e }, out)
   | "meta" => let (m, out) := metaStep s.metaSt o; ({ s with metaSt := m }, out)
